@@ -126,7 +126,7 @@ def place_key(body, pl, ev_const):
 class PrimEval:
     """Symbolic evaluation of one primitive's body."""
 
-    def __init__(self, facts, meng, fn):
+    def __init__(self, facts, meng, fn, helper=False, depth=0):
         self.f = facts
         self.fn = fn
         self.body = meng.body(fn)
@@ -137,10 +137,60 @@ class PrimEval:
         self.loaded = {}
         self.stored_before_load = False
         self.why = None
-        self.ctl = ctl_index(facts, fn)
+        self.depth = depth
+        self.opaque = False
+        self.ctl = None if helper else ctl_index(facts, fn)
         self.sel_locals = {}
         if self.ctl is not None:
             self._selectors()
+
+    def _same_width_src(self, x):
+        """Source local of a plain copy or a same-width integer cast (u32 <-> i32) defining `x`, else None."""
+        d = self.body.single_def(x)
+        if not (d and d[2] == "A" and d[3][2][0] in ("use", "cast")):
+            return None
+        rv = d[3][2]
+        src = operand_local(rv[1] if rv[0] == "use" else rv[2])
+        if src is None:
+            return None
+        if rv[0] == "cast":
+            ta = ty_of(self.f, self.fn["locals"][x][0])
+            tb = ty_of(self.f, self.fn["locals"][src][0])
+            if ta is None or tb is None or ta.bits != tb.bits:
+                return None
+        return src
+
+    def _inline(self, callee, args):
+        """A small private by-value helper (mask broadcast, blend wrapper): evaluated on the caller's tables.  Anything
+        touching memory, branching, or deeper than three levels stays undecided."""
+        tgt = self.f.fns.get(callee["id"])
+        if tgt is None or self.depth >= 3 or tgt["id"] == self.fn["id"] or len(tgt["blocks"]) > 16:
+            return None
+        if len(args) != tgt["argc"]:
+            return None
+        for i in range(1, tgt["argc"] + 1):
+            if self.f.ty(tgt["locals"][i][0]).get("k") in ("ref", "ptr"):
+                return None
+        sub = PrimEval(self.f, self.meng, tgt, helper=True, depth=self.depth + 1)
+        for b in sub.body.reach:
+            if sub.body.blocks[b]["t"][0] == "switch":
+                return None
+        sel = self.sel()
+        for i, a in enumerate(args):
+            v = self.operand(a)
+            if v is None:
+                continue
+            is_int = ty_of(self.f, tgt["locals"][i + 1][0]) is not None
+            if is_int and v == sel:
+                sub.sel_locals[i + 1] = 1
+            elif is_int and v == TT.NOT(sel):
+                sub.sel_locals[i + 1] = -1
+            else:
+                sub.env[i + 1] = v
+        sub.run()
+        if sub.loaded or sub.final or sub.opaque:
+            return None
+        return sub.env.get(0)
 
     def _selectors(self):
         fn = self.fn
@@ -265,6 +315,10 @@ class PrimEval:
             l = operand_local(args[0])
             x = l
             sgn = None
+            lane = 64 if name in ("_mm_set1_epi64x", "vdupq_n_u64") else 32
+            xt = ty_of(self.f, self.fn["locals"][x][0]) if x is not None else None
+            if xt is None or xt.bits != lane:
+                x = None
             for _ in range(6):
                 if x is None:
                     break
@@ -274,13 +328,8 @@ class PrimEval:
                 if x == self.ctl:
                     sgn = 1
                     break
-                d = self.body.single_def(x)
-                if d and d[2] == "A" and d[3][2][0] in ("use", "cast"):
-                    src = d[3][2][1] if d[3][2][0] == "use" else d[3][2][2]
-                    # only same-or-wider integer casts keep the selector uniform per lane
-                    x = operand_local(src)
-                else:
-                    break
+                # only plain copies and same-width casts keep the selector uniform over the lane
+                x = self._same_width_src(x)
             if sgn is not None:
                 s = self.sel()
                 v = s if sgn == 1 else TT.NOT(s)
@@ -294,6 +343,8 @@ class PrimEval:
                 v = TT.mux(m, a, b)
         elif name.startswith("vreinterpretq_") and len(args) == 1:
             v = self.operand(args[0])
+        elif t[1].get("l"):
+            v = self._inline(t[1], args)
         if len(dest) == 1:
             self.env[dest[0]] = v
         else:
